@@ -33,6 +33,7 @@ inductive Exec (σe : State) : IR → State → Res → State → Prop
   | loopS (a σ σ1 r σ2) : Exec σe a σ .norm σ1 → Exec σe (.loop a) σ1 r σ2 → Exec σe (.loop a) σ r σ2
   | loopX (a σ r σ1) : r ≠ .norm → Exec σe a σ r σ1 → Exec σe (.loop a) σ r σ1
   | ret (σ) : Exec σe .ret σ .ret σ
+  | restoreN (rs σ) : Exec σe (.restore rs) σ .norm (restore rs σe σ)
   | scopeN (a σ r σ1) : r ≠ .ret → Exec σe a σ r σ1 → Exec σe (.scope a) σ r σ1
   | scopeR (a σ σ1) : Exec σe a σ .ret σ1 → Exec σe (.scope a) σ .norm σ1
   | tryN (rs body σ r σ') : r ≠ .rais → Exec σe body σ r σ' → Exec σe (.tryRestore rs body) σ r σ'
@@ -151,6 +152,12 @@ theorem frame {σe : State} {p : IR} {σ σ' : State} {r : Res} (h : Exec σe p 
     · exact Or.inr h2
   | loopX a σ r σ1 _ _ ih => intro g hg; exact ih g (by simpa [mutFields] using hg)
   | ret => intro g _; exact Or.inl rfl
+  | restoreN rs σ =>
+    intro g _
+    simp only [restore]
+    split
+    · exact Or.inr rfl
+    · exact Or.inl rfl
   | scopeN a σ r σ1 _ _ ih => intro g hg; exact ih g (by simpa [mutFields] using hg)
   | scopeR a σ σ1 _ ih => intro g hg; exact ih g (by simpa [mutFields] using hg)
   | tryN rs body σ r σ' _ _ ih => intro g hg; exact ih g (by simpa [mutFields] using hg)
@@ -243,6 +250,16 @@ theorem sound {σe : State} {p : IR} {σ σ' : State} {r : Res} (h : Exec σe p 
     | rais => exact h
     | ret => exact h
   | ret σ => intro D hd; exact ⟨D, rfl, hd⟩
+  | restoreN rs σ =>
+    intro D hd
+    refine ⟨D.filter (fun f => !rs.contains f), rfl, ?_⟩
+    intro g hg
+    simp only [restore] at hg
+    by_cases hr : g ∈ rs
+    · simp [hr] at hg
+    · simp only [hr, if_false] at hg
+      simp only [List.mem_filter, Bool.not_eq_true', List.contains_eq_mem, decide_eq_false_iff_not]
+      exact ⟨hd g hg, hr⟩
   | scopeN a σ r σ1 hr _ ih =>
     intro D hd
     obtain ⟨U, h, w⟩ := ih D hd
@@ -341,6 +358,20 @@ theorem disciplined_unchanged (p : IR) (hp : Disciplined p) (σ σ' : State) (h 
     rcases hp with hp | hp
     · rw [show (run p []).get .rais = (run p []).rais from rfl, hp] at h1; cases h1
     · rw [show (run p []).get .rais = (run p []).rais from rfl, hp] at h1; exact (Option.some.inj h1).symm
+  subst hU
+  funext g
+  by_cases hg : σ' g = σ g
+  · exact hg
+  · exact absurd (w g hg) (by simp)
+
+/-- **a clean program leaves the state exactly as it found it, however it ends** -/
+theorem clean_unchanged (p : IR) (hp : Clean p) (σ σ' : State) (r : Res) (h : Exec σ p σ r σ') : σ' = σ := by
+  obtain ⟨U, h1, w⟩ := sound h [] (fun g hg => absurd rfl hg)
+  have hU : U = [] := by
+    obtain ⟨c1, c2, c3⟩ := hp
+    have hb : ((run p []).get r).clean = true := by cases r <;> assumption
+    rw [h1] at hb
+    simpa [Bound.clean] using hb
   subst hU
   funext g
   by_cases hg : σ' g = σ g
